@@ -1,6 +1,6 @@
 SPECIFICATION TSpec
 CONSTANTS
-  Ids = {1, 2, 3, 4, 5, 6, 7, 8}
+  Ids = {1, 2, 3, 4, 5, 6, 7, 8, 9}
   Cfgs <- TraceCfgs
   ReqKinds = {}
   ResKinds = {}
